@@ -33,6 +33,7 @@ var Metas = map[string]*Meta{
 		Components: map[string]any{"real": realCommon, "simulated_environment": []string{"io.Reader (sim.Stream: delivery plan)", "storage: scratch directory on the real file system with plain / .gz / two-member .gz / missing / missing parent / path through a regular file"}, "stubbed": []string{}},
 		Runs:       map[string]int{"quick": 12000, "thorough": 900000},
 		Run:        RunC06,
+		Setup:      SetupC18, // the same descriptor budget (RLIMIT_NOFILE=200): the "no descriptor left" configuration needs it
 	},
 	"C15": {
 		Level: "exploration",
